@@ -35,7 +35,7 @@ def emit_cases(scratch):
     return cases, r, (stats[0] if stats else '')
 
 
-def judge(obs, listings, scratch, par=harness.NPROC):
+def judge(obs, listings, scratch, par=harness.NPROC, prop='C07'):
     """C07_Distinct compares every case with all earlier ones of the same batch, so every batch gets *all* observations
     of the job (a prefix); batches differ in the range of cases whose verdict they report."""
     lf = scratch / 'listings.ndjson'
@@ -43,7 +43,7 @@ def judge(obs, listings, scratch, par=harness.NPROC):
     f = scratch / 'obs_all.ndjson'
     tlc.dump_ndjson(f, obs)
     r = tlc.run_tlc('TaskValuesObs', 'TaskValuesObs.cfg', scratch=scratch, workers=1, heap='6g',
-                    env={'LV_OBS': str(f), 'LV_LISTINGS': str(lf)}, tag='tvobs', timeout=3000)
+                    env={'LV_OBS': str(f), 'LV_LISTINGS': str(lf), 'LV_PROP': prop}, tag='tvobs', timeout=3000)
     if r.error or r.violated:
         raise tlc.TLCMachineryError(f'TaskValuesObs failed: {r.error or r.violated}\n{r.out[-2500:]}')
     verdicts = {}
@@ -64,15 +64,17 @@ def run(prop: str, tier: str) -> int:
         hashseeds = [7] if tier == 'quick' else [7, 1, 123, 4242]
         # one job = one shared storage; every job sees the whole grammar in a different order
         orders = 1 if tier == 'quick' else 3
+        parts = 4           # each part has its own shared storage; all parts of one order are judged together
         jobs = []
         for k in range(orders):
             cs = list(cases)
             rnd.shuffle(cs)
-            jobs.append({'id': f'{prop}-g{k}', 'cases': cs, 'protocols': protocols, 'hashseeds': hashseeds})
+            for j in range(parts):
+                jobs.append({'id': f'{prop}-g{k}p{j}', 'order': k, 'cases': cs[j::parts], 'protocols': protocols, 'hashseeds': hashseeds})
         raw = harness.run_jobs(jobs, scratch, module='lv.rigs.values', procs=len(jobs))
         nviol, total, drift = 0, 0, 0
-        for job in jobs:
-            recs = [r for r in raw if r['id'].startswith(job['id'] + '-')]
+        for k in range(orders):
+            recs = [r for r in raw if r['id'].startswith(f'{prop}-g{k}p')]
             obs = [dict(DEFAULTS, **r) for r in recs if 'accepted' in r]
             listings = [dict({'listing_error': '', 'listing_foreign': 0, 'listing_dups': 0}, **r) for r in recs if 'accepted' not in r]
             # merge the two kinds of listing records per type
@@ -82,7 +84,7 @@ def run(prop: str, tier: str) -> int:
                 for kk in ('listing_error', 'listing_foreign', 'listing_dups'):
                     if r.get(kk):
                         m[kk] = r[kk]
-            verdicts, vr = judge(obs, list(merged.values()), scratch)
+            verdicts, vr = judge(obs, list(merged.values()), scratch, prop=prop)
             total += len(obs)
             for o in obs + list(merged.values()):
                 fails = verdicts.get(o['id'], [])
@@ -90,14 +92,14 @@ def run(prop: str, tier: str) -> int:
                 mine = [c for c in fails if harness.prop_of(c) == prop]
                 if mine:
                     nviol += 1
-                    what = {k: o.get(k) for k in ('ty', 'raw', 'accepted', 'exc', 'key', 'variants', 'listed_own', 'listed_elsewhere',
-                                                   'listed_key_ok', 'listed_meta_ok', 'listed_loads_stored', 'recon_eq', 'pickle_detail',
-                                                   'listing_foreign', 'listing_error', 'foreign_sample') if k in o}
+                    what = {k2: o.get(k2) for k2 in ('ty', 'raw', 'accepted', 'exc', 'key', 'variants', 'listed_own', 'listed_elsewhere',
+                                                     'listed_key_ok', 'listed_meta_ok', 'listed_loads_stored', 'recon_eq', 'pickle_detail',
+                                                     'listing_foreign', 'listing_error', 'foreign_sample') if k2 in o}
                     fid = f'{mine[0]}:{json.dumps([o.get("ty"), o.get("raw")], separators=(",", ":"))[:160]}'
                     if o.get('main_module_type'):
                         fid = f'{mine[0]}:copy of a task whose type is defined in the main module, sent to a spawned interpreter ({o["id"]})'
-                    brief = {k: what[k] for k in ('listed_own', 'listed_elsewhere', 'listed_key_ok', 'listed_meta_ok', 'listed_loads_stored',
-                                                  'recon_eq', 'pickle_detail', 'listing_foreign', 'listing_error', 'exc') if k in what}
+                    brief = {k2: what[k2] for k2 in ('listed_own', 'listed_elsewhere', 'listed_key_ok', 'listed_meta_ok', 'listed_loads_stored',
+                                                     'recon_eq', 'pickle_detail', 'listing_foreign', 'listing_error', 'exc') if k2 in what}
                     rep.violation(fid, f'{mine}: {json.dumps(brief)[:260]}',
                                   {'property': prop, 'kind': 'value-case', 'case': [o.get('ty'), o.get('raw')], 'fails': mine, 'observation': o})
         accepted = sum(1 for r in raw if r.get('accepted'))
@@ -128,7 +130,7 @@ def replay(payload, path, scratch):
     job = {'id': 'replay', 'cases': [[ty, rawv]], 'protocols': [pickle.HIGHEST_PROTOCOL], 'hashseeds': [7]}
     raw = harness.run_jobs([job], scratch, module='lv.rigs.values', procs=1)
     obs = [dict(DEFAULTS, **r) for r in raw if 'accepted' in r]
-    verdicts, _ = judge(obs, [], scratch)
+    verdicts, _ = judge(obs, [], scratch, prop=payload['property'])
     print(json.dumps(obs[0], indent=1)[:3000])
     mine = [c for c in verdicts[obs[0]['id']] if harness.prop_of(c) == payload['property']]
     if mine:
